@@ -76,8 +76,8 @@ func drawCount(c choice.Chooser, pool int) int {
 
 func (Scans) Run(c choice.Chooser, opt sim.Options) sim.Result {
 	res := sim.Result{Evals: 1}
-	maxN := 64
-	maxCount = 48
+	maxN := 128
+	maxCount = 100 // (48 until wave 4: batch-size arithmetic of dynamic work distribution needs room, C10-f1)
 	if opt.Tier == "thorough" {
 		maxCount, maxN = 300, 320 // deeper bounds
 	}
